@@ -157,6 +157,20 @@ ComposeClauses(c, out, fullpre, fullpost, r) ==
     ELSE <<>>
 
 ---------------------------------------------------------------------------
+(* C15 - rejected input fails cleanly.  One record per corrupted (or valid) text handed to sdn.parse:     *)
+(* r.parse in {"ok", "raised", "timeout"}, the policy before / after, the probe bit, and for an accepted  *)
+(* text the returned netlist in the post-state.                                                           *)
+ParseClauses(pre, c, post, ret, r) ==
+    IF c.op = "parse_text" THEN
+      << <<"C15_Terminates", r.parse # "timeout">>,
+         <<"C15_PolicyRestored", r.policy_after = r.policy_before>>,
+         <<"C15_FreshBehaviour", r.probe_same>>,
+         <<"C15_NoHalfBuilt", (r.parse = "ok" /\ Len(ret) = 1) => (WF(post) /\ SelfContained(post, ret[1]))>>,
+         <<"C15_DanglingRejected", (c.kind = "dangle") => r.parse # "ok">>,
+         <<"C15_ValidAccepted", (c.kind = "none") => r.parse = "ok">> >>
+    ELSE <<>>
+
+---------------------------------------------------------------------------
 (* C17 - identifiers the EDIF writer assigned: legal, and distinct ignoring case among siblings.      *)
 (* idc[kind][x] = the characters of EDIF.identifier of element x after the export.                     *)
 LowerLetters == {"a","b","c","d","e","f","g","h","i","j","k","l","m","n","o","p","q","r","s","t","u","v","w","x","y","z"}
